@@ -19,7 +19,7 @@ ASSUMPTIONS = [
 ]
 RULE = ("sessions of 1-6 requests x {no authenticator, registry (u1:p1, 'ü':'pä ss'), custom authenticator accepting SNI credentials} x {HTTP/1.1 (one request per connection), "
         "HTTP/2 (streams of one connection)} x SNI credentials {none, accepted, rejected}; Proxy-Authorization: absent, both valid pairs, wrong password, wrong user, "
-        "valid+trailing byte, lower-case scheme, 'Basic' without space, two spaces, malformed base64, Bearer, bytes >= 0x80, empty (header values never start or end with a blank: an HTTP/1.1 parser strips those); requests: CONNECT ip:port, CONNECT "
+        "valid+trailing byte, lower-case scheme, 'Basic' without space, two spaces, the token without a scheme, the scheme twice, malformed base64, Bearer, bytes >= 0x80, empty (header values never start or end with a blank: an HTTP/1.1 parser strips those); requests: CONNECT ip:port, CONNECT "
         "name:port, _check, _udp2 (+ one datagram), _icmp, GET/POST absolute URI; non-trivial = authenticator configured; distinct = distinct session")
 
 
@@ -35,6 +35,8 @@ HEADERS = [
     ("two-spaces", b"Basic  " + b64(b"u1:p1")), ("bad-b64", b"Basic !!!!"), ("bearer", b"Bearer " + b64(b"u1:p1")),
     ("high-bytes", b"Basic \xff\xfe" + b64(b"u1:p1")), ("empty", b""), ("scheme-and-dot", b"Basic ."),
     ("user-only", b"Basic " + b64(b"u1")), ("swapped", b"Basic " + b64(b"p1:u1")),
+    # the valid token without a scheme, behind a repeated scheme, behind another scheme's name glued to it
+    ("token-only", b64(b"u1:p1")), ("scheme-twice", b"Basic Basic " + b64(b"u1:p1")), ("scheme-suffix", b"XBasic " + b64(b"u1:p1")),
 ]
 
 
